@@ -277,6 +277,7 @@ Definition recv_ok (o' : expr) : bool :=
   | Lit _ | Var _ | Tmp _ | CallE _ _ | MCall0 _ _ | MCall1 _ _ _ | CallT0 _ _ | CallT1 _ _ _ | Hook _ _
   | Par _ | Hoist1 _ _ _ | Hoist2 _ _ _ _ _ | Hoist3 _ _ _ _ _ _ _ => true
   | Get _ k => negb (String.eqb k "prototype")      (* a.b.m() but not X.prototype.m() *)
+  | GetC _ _ => true                                (* a[k].m() *)
   | _ => false
   end.
 
@@ -390,6 +391,8 @@ Fixpoint rw (e : expr) (c : nat) : expr * nat :=
       let '(k', c2) := rw k c1 in
       let '(e', c3) := rw e1 c2 in
       if plus_on then rw_addasg_c o' k' e' c3 else (AddAsgC o' k' e', c3)
+  | GetC o k =>                                     (* a property read with a computed key: nothing to instrument *)
+      let '(o', c1) := rw o c in let '(k', c2) := rw k c1 in (GetC o' k', c2)
   | _ => (e, c)
   end.
 
@@ -405,6 +408,7 @@ Fixpoint rw_root (e : expr) : expr :=
   | AddAsgV x e1 => if plus_on then fst (rw e 0) else AddAsgV x (rw_root e1)
   | AddAsgM o k e1 => if plus_on then fst (rw e 0) else AddAsgM (rw_root o) k (rw_root e1)
   | AddAsgC o k e1 => if plus_on then fst (rw e 0) else AddAsgC (rw_root o) (rw_root k) (rw_root e1)
+  | GetC o k => GetC (rw_root o) (rw_root k)          (* object and key are roots of their own *)
   | _ => fst (rw e 0)
   end.
 
@@ -426,6 +430,7 @@ Fixpoint src (e : expr) : Prop :=
   | OptMCall0 o _ => src o
   | OptMCall1 o _ a => src o /\ src a
   | AddAsgC o k e1 => src o /\ src k /\ src e1
+  | GetC o k => src o /\ src k                 (* a property read o[k] *)
   | _ => False
   end.
 
